@@ -443,12 +443,16 @@ class BinnedTrees(Iterable[AngularTree]):
             ValueError:
                 If bin edges are provided but patch has not redshifts attached.
         """
-        try:
-            assert not force
-            new = cls(patch)  # trees exists, load the associated binning
-            assert new.binning_equal(binning)
+        new = None
+        if not force:
+            try:
+                cached = cls(patch)  # trees exists, load the associated binning
+                if cached.binning_equal(binning):
+                    new = cached
+            except FileNotFoundError:
+                pass
 
-        except (AssertionError, FileNotFoundError):
+        if new is None:
             new = cls.__new__(cls)
             new._patch = patch
             new.binning = binning
